@@ -289,8 +289,8 @@ func checkMatchStyleAll(s *Segment) (bind string, capture int, ok bool) {
 		return "**", 0, true
 	}
 
-	// Check for "{<BindIdent>: **}"
-	if len(s.Elements) == 0 ||
+	// Check for "{<BindIdent>: **}", which must be the only element of the segment
+	if len(s.Elements) != 1 ||
 		s.Elements[0].BindParameters == nil ||
 		len(s.Elements[0].BindParameters.Parameters) == 0 ||
 		s.Elements[0].BindParameters.Parameters[0].Value.Literal == nil ||
